@@ -103,8 +103,15 @@ def oracle(case, impl):
     SR = case["SR"]
     desc = None
     first_wfm = None
-    for op, r in zip(case["prog"], impl):
+    from . import c05
+    pending = None
+    for i, (op, r) in enumerate(zip(case["prog"], impl)):
+        if op[0] in ("BInsert", "BRemove") and desc is not None:
+            pending = (i, op, r)            # an edit after the markers were bound: they must stay attached
         if op[0] == "OBDescr" and isinstance(r, dict):
+            if pending is not None and desc is not None:
+                out += c05.frame_check(pending[0], pending[1], pending[2], desc, r)
+                pending = None
             desc = r
         if op[0] == "OBForge":
             if isinstance(r, lang.Err) or desc is None:
